@@ -19,6 +19,8 @@ func init() {
 			"Not decided: that a save is eventually scheduled, server behaviour under timeout.",
 		Assumptions: []string{"errgroup.Wait returns the first error of the spawned functions", "Metadata.Save returns nil only when every attempted write was confirmed (C20)"},
 		Rules: []RuleDef{
+			{ID: "C05.R26", Text: "saves happen under the checkpoint type the operator can see: every documented default is applied — also when only part of a section is configured (same rules as C17.R1 and C17.R8)", Run: func(c *Ctx, id string) { c17r1(c, id); documentedDefaults(c, id) }},
+			{ID: "C05.R25", Text: "an acknowledgement for an assigned vBucket is never refused: the range the position writer tests is re-derived from the assignment at every Open (same rule as C04.R2)", Run: c04r2},
 			{ID: "C05.R1", Text: "on the synchronous path of every call of the position writer that may pass dirty=true, the save flag is set to true", Run: c05r1},
 			{ID: "C05.R2", Text: "dirty mark ⇔ position stored ∧ dirty; the mark leaves the map value true in every case (StoreIf condition closure evaluated exhaustively)", Run: c05r2},
 			{ID: "C05.R3", Text: "Checkpoint.Save: the Metadata.Save call is control-dependent on the save flag (GetOffsets()#2) and nothing else; the dirty dump copies every entry of GetOffsets()#1", Run: c05r3},
@@ -660,6 +662,12 @@ func fieldOwner(v ssa.Value) string {
 		}
 	case *ssa.FieldAddr:
 		return recvTypeName(x.X.Type())
+	}
+	// the receiver a flag setter is called on (flagWrite reports it in place of the field's address)
+	if _, isPtr := v.Type().Underlying().(*types.Pointer); isPtr {
+		if n := recvTypeName(v.Type()); n != "" {
+			return n
+		}
 	}
 	return "?"
 }
